@@ -130,6 +130,7 @@ structure State where
   hitNum : Nat := 0
   recLog : List Tok := []   -- recycler invocations
   pushLog : List Tok := []  -- ObjectPool::push calls
+  injected : Nat := 0       -- objects the client created and handed to the pool (`inject`)
   deriving Inhabited
 
 def State.init (c : Cfg) : State :=
@@ -639,7 +640,7 @@ def callOp (c : Cfg) (s : State) (t : Tid) (op : Op) : Option State :=
   | .dtor => if c.mode ≠ Mode.pages then none else some (s.setTh t { th with kind := .dtor, pc := .dIdx })
   | .bdtor order => if c.mode ≠ Mode.pages then none else some (s.setTh t { th with kind := .bdtor, pc := .bdNext, todo := order })
   | .inject o =>
-    if isLive c s o then none else some { s with held := s.held ++ [o], obtained := s.obtained + 1 }
+    if isLive c s o then none else some { s with held := s.held ++ [o], obtained := s.obtained + 1, injected := s.injected + 1 }
   | .pop =>
     match c.mode with
     | .poolAuto => some (startAlloc c s t { th with kind := .pop } 1 .top)
